@@ -1085,7 +1085,12 @@ impl Patch {
                 // Discard revisions that weren't merged by a threshold of delegates.
                 merges.retain(|_, count| *count >= identity.threshold());
 
-                match merges.into_keys().collect::<Vec<_>>().as_slice() {
+                // N.b. sort the revisions, so that the order of the conflicts doesn't
+                // depend on the iteration order of the hash map.
+                let mut merges = merges.into_keys().collect::<Vec<_>>();
+                merges.sort();
+
+                match merges.as_slice() {
                     [] => {
                         // None of the revisions met the quorum.
                     }
